@@ -15,9 +15,10 @@ def gen_block(g, idx, atypes):
     n = g.randint(1, 4)
     atoms = []
     for k in range(n):
-        charge = g.choice([0.0, 0.0, 0.5, -0.5, 1.0])
+        # (some values carry more than six significant digits, as atomistic force fields do)
+        charge = g.choice([0.0, 0.0, 0.5, -0.5, 1.0, 0.1176667, -0.4123456])
         atoms.append({"name": f"{pre}{k + 1}", "atype": g.choice(atypes), "charge": charge,
-                      "mass": g.choice([36.0, 45.0, 72.0]), "cgnr": k + 1 if g.random() < 0.7 else 1})
+                      "mass": g.choice([36.0, 45.0, 72.0, 126.90447, 22.98977]), "cgnr": k + 1 if g.random() < 0.7 else 1})
     shape = g.choice(["chain", "tree"])
     pairs = [(k, k + 1) if shape == "chain" else (g.randrange(k + 1), k + 1) for k in range(n - 1)]
     inter = {"bonds": [], "constraints": [], "angles": [], "dihedrals": []}
@@ -175,7 +176,7 @@ def gen_ff(g, nblocks=None, uniform_nrexcl=True, itp_p=0.2, multires_p=0.15):
         # fragment carry the label from_itp): copies of 2-3 of the blocks above, chained by bonds
         comp = [g.randrange(len(blocks)) for _ in range(g.randint(2, 3))]
         multires = {"name": "MR", "comp": comp, "link_len": [str(round(g.uniform(0.3, 0.45), 3)) for _ in comp[1:]],
-                    "split_first": False}
+                    "split_first": False, "interleave": g.random() < 0.4}
     # file layout
     items = [["block", i] for i in range(len(blocks))] + [["link", i] for i in range(len(links))]
     nfiles = g.randint(1, 3)
@@ -198,8 +199,9 @@ def gen_ff(g, nblocks=None, uniform_nrexcl=True, itp_p=0.2, multires_p=0.15):
 
 def render_multires(ff):
     mr = ff["multires"]
-    out = ["[ moleculetype ]", f"{mr['name']} {ff['blocks'][0]['nrexcl']}", "[ atoms ]"]
-    bonds = []
+    head = ["[ moleculetype ]", f"{mr['name']} {ff['blocks'][0]['nrexcl']}", "[ atoms ]"]
+    atoms = []          # (fields after the atom number, position inside its residue)
+    bonds = []          # (i, j, params) with 1-based atom numbers in residue-by-residue order
     first_of = []
     last_of = []
     n = 0
@@ -215,17 +217,27 @@ def render_multires(ff):
                 rname = "RX"                      # variant: the first atom forms a residue of its own
             elif mr.get("split_first") and len(ff["blocks"][mr["comp"][0]]["atoms"]) >= 2:
                 rid = resid + 1
-            out.append(f"{n} {a['atype']} {rid} {rname} {a['name']} {n} {a['charge']} {a['mass']}")
+            atoms.append(([a["atype"], rid, rname, a["name"]], [a["charge"], a["mass"]], j))
         first_of.append(base + 1)
         last_of.append(n)
         for it in b["inter"]["bonds"] + [dict(c, params=c["params"] + ["5000"]) for c in b["inter"]["constraints"]]:
             if it["meta"]:
                 continue
-            bonds.append(f"{base + it['atoms'][0] + 1} {base + it['atoms'][1] + 1} " + " ".join(it["params"][:3]))
+            bonds.append((base + it["atoms"][0] + 1, base + it["atoms"][1] + 1, " ".join(it["params"][:3])))
     for k in range(len(mr["comp"]) - 1):
-        bonds.append(f"{last_of[k]} {first_of[k + 1]} 1 {mr['link_len'][k]} 3500")
+        bonds.append((last_of[k], first_of[k + 1], f"1 {mr['link_len'][k]} 3500"))
+    order = list(range(len(atoms)))
+    if mr.get("interleave"):
+        # atoms listed by their position inside the residue (all first atoms, then all second atoms, ...): the atoms
+        # of one residue are not consecutive in the file, as in itp files that list heavy atoms first, hydrogens last
+        order.sort(key=lambda x: (atoms[x][2], x))
+    new_no = {old + 1: new + 1 for new, old in enumerate(order)}
+    out = list(head)
+    for new, old in enumerate(order):
+        f, tail, _j = atoms[old]
+        out.append(f"{new + 1} {f[0]} {f[1]} {f[2]} {f[3]} {new + 1} {tail[0]} {tail[1]}")
     out.append("[ bonds ]")
-    out += bonds
+    out += [f"{new_no[i]} {new_no[j]} {par}" for i, j, par in bonds]
     return "\n".join(out) + "\n"
 
 
